@@ -77,6 +77,13 @@ CHECKS = {
         "text": "Histories that C01 excludes run against the real observer while, at a generated index of the library's inotify_add_watch / os.walk calls, the harness deletes, renames aside or re-creates the very entry about to be looked at; no library thread may end with an unhandled exception, three sentinels in the living root must never go unanswered, every start directory that kept path and inode must still report a probe, a second handler on the same watch must see it too, and deleting the root must yield exactly one DirDeletedEvent(root), nothing after it and a stopped emitter.",
         "note": "Real kernel; the race outcome is produced by the real kernel (no faked errno). An OSError raised to the caller of schedule() because a directory vanished during the initial walk is treated as an allowed outcome (not a dying thread). Trusted: vlib/fsops.py and the proxies in props/c07.py.",
     },
+    "C19": {
+        "engine": "fsops",
+        "design_ref": "DESIGN.md §4 C19",
+        "technique": "property-based testing: generated histories over non-ASCII and undecodable names on the real kernel, for every root spelling/type and three observer kinds; type and name predicate on every delivered path",
+        "text": "For str / bytes / pathlib.Path roots in absolute, relative and trailing-slash spellings (root names with non-ASCII and undecodable bytes too), histories incl. directory renames with descendants and move-in of trees run against the inotify (normal and full) and polling observers; every non-empty src/dest path of every event (synthetic and parent-directory events included) must have the caller's path type and, after os.fsencode, name an entry the history really had under the root as given.",
+        "note": "Trusted: vlib/fsops.py, the model's set of names. The root itself is accepted with or without its trailing separator.",
+    },
 }
 
 ALL = [f"C{i:02d}" for i in range(1, 21)]
